@@ -6,6 +6,7 @@ package proxy
 import (
 	"net/http"
 	"strconv"
+	"sync"
 
 	"github.com/tmpim/casket/zzverif/verifrt"
 )
@@ -43,6 +44,58 @@ func zzPool(n int) (HostPool, *staticUpstream) {
 		pool[i] = h
 	}
 	return pool, u
+}
+
+// zzKeyWithHash inverts the hash summary natively: a key whose real FNV-1a hash has the same residue
+// mod n as hv; when a counterexample is being confirmed, a key with exactly the hash hv is searched
+// for first (16 goroutines over 5-byte keys, a few seconds), because changed code may depend on
+// more than the residue.
+func zzKeyWithHash(hv uint32, n int) string {
+	if verifrt.Confirming() {
+		found := make(chan string, 16)
+		stop := make(chan struct{})
+		var wg sync.WaitGroup
+		for w := 0; w < 16; w++ {
+			wg.Add(1)
+			go func(w int) {
+				defer wg.Done()
+				var b [5]byte
+				b[4] = byte('a' + w)
+				for i := uint64(0); i < 1<<32; i++ {
+					if i&0xfffff == 0 {
+						select {
+						case <-stop:
+							return
+						default:
+						}
+					}
+					b[0], b[1], b[2], b[3] = byte(i), byte(i>>8), byte(i>>16), byte(i>>24)
+					h := uint32(2166136261)
+					for _, c := range b {
+						h ^= uint32(c)
+						h *= 16777619
+					}
+					if h == hv {
+						found <- string(b[:])
+						return
+					}
+				}
+			}(w)
+		}
+		go func() { wg.Wait(); close(found) }()
+		k, ok := <-found
+		close(stop)
+		if ok && hash(k) == hv {
+			return k
+		}
+	}
+	for k := 0; k < 1000000; k++ {
+		key := strconv.Itoa(k)
+		if hash(key)%uint32(n) == hv%uint32(n) {
+			return key
+		}
+	}
+	return "k"
 }
 
 func zzIndex(pool HostPool, h *UpstreamHost) int {
@@ -196,12 +249,7 @@ func VerifH05aHashed() {
 	if verifrt.Symbolic() {
 		verifrt.Stub("github.com/tmpim/casket/caskethttp/proxy.hash", func(string) uint32 { return hv })
 	} else {
-		for k := 0; k < 1000000; k++ {
-			key = strconv.Itoa(k)
-			if hash(key)%uint32(n) == hv%uint32(n) {
-				break
-			}
-		}
+		key = zzKeyWithHash(hv, n)
 	}
 	req := &http.Request{RemoteAddr: key, RequestURI: key, Header: http.Header{"X-Key": []string{key}}}
 	var p Policy
@@ -241,12 +289,7 @@ func VerifH05bHashStable() {
 	if verifrt.Symbolic() {
 		verifrt.Stub("github.com/tmpim/casket/caskethttp/proxy.hash", func(string) uint32 { return hv })
 	} else {
-		for k := 0; k < 1000000; k++ {
-			k2 = strconv.Itoa(k)
-			if hash(k2)%uint32(n) == hv%uint32(n) {
-				break
-			}
-		}
+		k2 = zzKeyWithHash(hv, n)
 	}
 	a := hostByHashing(pool, k2)
 	b := hostByHashing(pool, k2)
